@@ -236,6 +236,23 @@ CHECKS = {
               'multi-residue blocks whose last particle is not in the last residue are numbered as merge_molecule does (offset '
               'by the last particle), consecutive numbering is proved for one-residue blocks only.'),
         technique='Coq proof (enumeration soundness/completeness, fold invariants with fresh-key argument, insertion-sort order) + in-Coq correspondence + direct statement checker'),
+    'C06': dict(
+        category='proof',
+        text=('PARTIAL. Coq: (1) the specification (induced sub-graph isomorphism with node and edge colours, equivalence '
+              'under pattern automorphisms, largest common induced sub-graph) with a reference enumeration proved sound and '
+              'complete, and three judges of an output proved sound: every isomorphism exactly once; exactly one '
+              'representative per symmetry class; only maximum common sub-graphs and every maximum one (up to symmetry). '
+              '(2) a model of the backtracking core _map_nodes / find_isomorphisms proved, by an invariant on the candidate '
+              'sets, to return exactly the isomorphisms that respect the ordering constraints, for EVERY next-node heuristic '
+              'and EVERY asymmetric constraint set (so independent of the min-candidates rule and of set iteration order). '
+              'Tie: real ISMAGS runs (sessions sharing a symmetry cache) on exhaustive small and generated graphs; outputs '
+              'compared with the model run on the constraints the implementation derived, and judged by the proved '
+              'checkers. Not proved: that analyze_symmetry yields constraints selecting one representative per class, the '
+              'look-ahead filter, and the shrinking search of largest_common_subgraph (all judged per input by the checkers).'),
+        design_ref='DESIGN.md section 5, C06',
+        note=('Trusted: Coq kernel + vm_compute; networkx only as a graph container; the reference enumeration is exponential '
+              '(patterns <= 6 nodes, graphs <= 7 nodes in the correspondence).'),
+        technique='Coq proof (verified oracle; invariant proof of the backtracking search for all heuristics) + in-Coq correspondence'),
 }
 NOT_APPLICABLE = {}
 PENDING_REASON = 'not yet claimed: model and proofs for this property are still being built (see DESIGN.md staging); no check is registered so nothing is asserted'
